@@ -77,7 +77,7 @@ View == <<st, phase, nTx, nFail>>
 AmountsQuick == {3}
 AmountsFull == {3, 30}
 
-Inv == C03State(st) /\ C04State(st) /\ C02StateModel(st) /\ NotHalted(st) /\ C08State(st)
+Inv == C03State(st) /\ C04State(st) /\ C02StateModel(st) /\ NotHalted(st) /\ C08State(st) /\ C15State(st)
 StepProps == [][ hist' # hist =>
                  LET ev == hist'[Len(hist')] IN
                  C03Step(st, st', ev) /\ C04Step(st, st', ev) /\ C02Step(st, st', ev) /\ C05Step(st, st', ev) /\ C09Step(st, st', ev) ]_vars
